@@ -649,6 +649,7 @@ fn c07_rx(ctx: &CaseCtx) -> CaseReport {
     let mut cfg = rx::generate(ctx.case_seed, focus, if ctx.tier == Tier::Quick { 120 } else { 500 });
     // the endpoint's own data would make it a sender too; the timing rules are judged on a pure receiver
     cfg.a_writes = 0;
+    cfg.keep_snapshots = ctx.index % 3 == 1;
     rep.desc = cfg.describe();
     let run = rx::run_rx(ctx.case_seed, &cfg);
     if let Some(p) = &run.panicked {
@@ -656,6 +657,10 @@ fn c07_rx(ctx: &CaseCtx) -> CaseReport {
     }
     let view = WireView::build(&run.events);
     let real_addr = if cfg.ipv6 { crate::sim::v6(rx::REAL_PORT) } else { crate::sim::v4(rx::REAL_PORT) };
+    if cfg.keep_snapshots {
+        // the 40 ms bound rests on the delayed-ACK timer waking the task
+        mon::timers::check_deadline_wakeups(&mut rep, "C07", &run.events, &[mon::timers::Timer::AckDelay], Some(real_addr), run.end_time);
+    }
     mon::c07::check(
         &mut rep,
         &run.events,
@@ -1256,6 +1261,15 @@ fn c17_hs(ctx: &CaseCtx) -> CaseReport {
     );
     if snapshots {
         mon::c17::coverage_labels(&mut rep, &run.events, &view, real_addr);
+        // SYN-ACK repetition, FIN retransmission and giving up all hang on these timers waking the task
+        mon::timers::check_deadline_wakeups(
+            &mut rep,
+            "C17",
+            &run.events,
+            &[mon::timers::Timer::SynAckResend, mon::timers::Timer::Retransmit, mon::timers::Timer::Inactivity],
+            Some(real_addr),
+            run.end_time,
+        );
     }
     rep.counters.add("datagrams", view.pkts.len() as u64);
     rep.nontrivial = view.pkts.len() > 3;
@@ -1266,9 +1280,13 @@ fn c17_hs(ctx: &CaseCtx) -> CaseReport {
 
 fn c06_tx(ctx: &CaseCtx) -> CaseReport {
     let mut rep = CaseReport::new(ctx.family, ctx.index, ctx.case_seed);
-    let (cfg, run) = tx_common(ctx, &mut rep, crate::fam::txscript::TxFocus::Retransmit, if ctx.tier == Tier::Quick { 120_000 } else { 500_000 });
+    let (cfg, run) = tx_common_opts(ctx, &mut rep, crate::fam::txscript::TxFocus::Retransmit, if ctx.tier == Tier::Quick { 120_000 } else { 500_000 }, ctx.index % 3 == 0);
     let view = WireView::build(&run.events);
     let real_addr = if cfg.ipv6 { crate::sim::v6(crate::fam::txscript::REAL_PORT) } else { crate::sim::v4(crate::fam::txscript::REAL_PORT) };
+    if cfg.keep_snapshots {
+        // timeouts and the pipe re-computation in recovery hang on these timers waking the task
+        mon::timers::check_deadline_wakeups(&mut rep, "C06", &run.events, &[mon::timers::Timer::Retransmit, mon::timers::Timer::RecoveryPipe], Some(real_addr), run.end_time);
+    }
     if let Some(m) = mon::sender::build(&run.events, &view, cfg.real_initiates, cfg.sock.min_payload(!cfg.ipv6)) {
         let realistic = (cfg.policy.dup_ack.0 == 0.0 || cfg.policy.dup_only_with_hole) && cfg.policy.stale_ack == 0.0;
         mon::c06::check(&mut rep, &m, &run.events, cfg.sock.max_retransmissions.unwrap_or(5), real_addr, realistic);
@@ -1558,6 +1576,8 @@ fn c02_fairlossy(ctx: &CaseCtx) -> CaseReport {
     g.cfg.a.remote_inactivity_timeout = Some(std::time::Duration::from_secs(900));
     g.cfg.b.remote_inactivity_timeout = Some(std::time::Duration::from_secs(900));
     g.cfg.deadline = std::time::Duration::from_secs(6 * 3600);
+    // a slice of the smaller cases records snapshots: every armed protocol timer must wake the task
+    g.cfg.keep_snapshots = ctx.index % 5 == 0 && g.cfg.w[0].total + g.cfg.w[1].total < 120_000;
     rep.desc = format!("{} plan[{}]", g.cfg.describe(), g.plan_desc);
     let run = duplex::run_duplex(ctx.case_seed, &g.cfg, g.plan);
     let view = WireView::build(&run.events);
@@ -1567,6 +1587,9 @@ fn c02_fairlossy(ctx: &CaseCtx) -> CaseReport {
     let causes = || duplex_causes(ctx.case_seed, &run.events, &view, run.end_time);
     let symptoms = || mon::diag::symptoms(&run.events);
     mon::c02::check_completion(&mut rep, &g.cfg, &run, &causes, &symptoms);
+    if g.cfg.keep_snapshots {
+        mon::timers::check_deadline_wakeups(&mut rep, "C02", &run.events, &mon::timers::ALL, None, run.end_time);
+    }
     let dropped = view.pkts.iter().filter(|p| matches!(p.fate, crate::events::Fate::Drop(_))).count() as u64;
     rep.counters.add("dropped_datagrams", dropped);
     rep.counters.add("datagrams", view.pkts.len() as u64);
